@@ -27,6 +27,10 @@ Proof.
       apply IH in Hys. rewrite Hys. reflexivity.
 Qed.
 
+Lemma Forall2_impl {A B} (P Q : A -> B -> Prop) la lb :
+  (forall a b, P a b -> Q a b) -> Forall2 P la lb -> Forall2 Q la lb.
+Proof. intros H F. induction F; constructor; auto. Qed.
+
 Lemma mapM_length {A B} (f : A -> result B) l vs : mapM f l = Ok vs -> length vs = length l.
 Proof. intros H. apply mapM_ok in H. induction H; cbn; congruence. Qed.
 
@@ -224,7 +228,7 @@ Proof.
   { unfold m. replace (2 ^ 53) with (2 ^ Z.succ e0 * 2 ^ (52 - e0)) by (rewrite <- Z.pow_add_r by lia; f_equal; lia).
     apply Z.mul_lt_mono_pos_r; [apply Z.pow_pos_nonneg; lia | lia]. }
   replace (m =? 2 ^ 53) with false by (symmetry; apply Z.eqb_neq; lia).
-  replace (e0 >? 1023) with false by (symmetry; apply Z.gtb_ltb, Z.ltb_ge; lia).
+  replace (e0 >? 1023) with false by (symmetry; rewrite Z.gtb_ltb; apply Z.ltb_ge; lia).
   change (2 ^ 52) with two52 in *. change (2 ^ 53) with (2 * two52) in *.
   assert (Hq : ((e0 + 1023) * two52 + (m - two52)) / two52 = e0 + 1023).
   { rewrite Z.add_comm, Z.div_add by (unfold two52; lia). rewrite Z.div_small by lia. lia. }
@@ -343,4 +347,423 @@ Lemma container_kind_mismatch q n p vf tf t c :
 Proof.
   intros Hc Hk. cbn [eval]. destruct (ty_category t) eqn:E; cbn in Hc; try discriminate;
     destruct c; try contradiction; try discriminate; reflexivity.
+Qed.
+
+(* ---------------------------------------------------------------- struct literals *)
+
+Lemma eval_struct_literal q n p vf tf t l :
+  is_struct_like_category (ty_category t) = true ->
+  eval q (S n) p vf tf t (CMap l) =
+  (gs <- get_struct_like p tf t ;;
+   fs <- struct_slots q (eval q n p vf (fst gs)) (snd gs) l ;; Ok (VStruct fs)).
+Proof. intros Hc. cbn [eval]. destruct (ty_category t); cbn in Hc; try discriminate; reflexivity. Qed.
+
+Lemma mapM_In {A B} (f : A -> result B) l vs x :
+  mapM f l = Ok vs -> In x l -> exists y, f x = Ok y /\ In y vs.
+Proof.
+  intros H. apply mapM_ok in H. induction H as [|a b l vs Hab _ IH]; intros Hin; [contradiction|].
+  destruct Hin as [<-|Hin]; [exists b; split; [assumption | left; reflexivity]|].
+  destruct (IH Hin) as (y & Hy & Hiy). exists y. split; [assumption | right; assumption].
+Qed.
+
+(* each field the literal mentions (once) holds the value of what was written for it, at the
+   field's type — types read in the file of the struct, identifiers in the file of the
+   literal — stored the way the Go field stores it; every other field is Go zero *)
+Lemma eval_struct_literal_fields q n p vf tf t l g s fs fd :
+  is_struct_like_category (ty_category t) = true ->
+  get_struct_like p tf t = Ok (g, s) ->
+  eval q (S n) p vf tf t (CMap l) = Ok (VStruct fs) ->
+  In fd (sl_fields s) ->
+  (forall kv, filter (key_names fd) l = [kv] ->
+     exists v sl, eval q n p vf g (fd_type fd) (snd kv) = Ok v /\ mention_slot fd (snd kv) v = Ok sl /\
+                  In (fd_id fd, sl) fs) /\
+  (filter (key_names fd) l = [] ->
+     In (fd_id fd, if q_unmentioned_any q then VAny else zero_slot fd) fs).
+Proof.
+  intros Hc Hg He Hin. rewrite eval_struct_literal in He by assumption. rewrite Hg in He. cbn [bind fst snd] in He.
+  apply bind_ok in He as (fs' & Hs & He). injection He as <-.
+  unfold struct_slots in Hs. destruct (negb (keys_ok s l)); [discriminate|].
+  destruct (mapM_In _ _ _ fd Hs Hin) as (y & Hy & Hiy). split.
+  - intros kv Hf. rewrite Hf in Hy. apply bind_ok in Hy as (v & Hv & Hy). apply bind_ok in Hy as (sl & Hsl & Hy).
+    injection Hy as <-. exists v, sl. auto.
+  - intros Hf. rewrite Hf in Hy. injection Hy as <-. exact Hiy.
+Qed.
+
+Lemma eval_struct_literal_shape q n p vf tf t l g s fs :
+  is_struct_like_category (ty_category t) = true ->
+  get_struct_like p tf t = Ok (g, s) ->
+  eval q (S n) p vf tf t (CMap l) = Ok (VStruct fs) ->
+  map fst fs = map fd_id (sl_fields s).
+Proof.
+  intros Hc Hg He. rewrite eval_struct_literal in He by assumption. rewrite Hg in He. cbn [bind fst snd] in He.
+  apply bind_ok in He as (fs' & Hs & He). injection He as <-.
+  unfold struct_slots in Hs. destruct (negb (keys_ok s l)); [discriminate|].
+  apply mapM_ok in Hs. induction Hs as [|fd e fds fs' He _ IH]; [reflexivity|]. cbn [map]. f_equal; [|exact IH].
+  destruct (filter (key_names fd) l) as [|kv [|? ?]]; try discriminate.
+  - injection He as <-. reflexivity.
+  - apply bind_ok in He as (v & _ & He). apply bind_ok in He as (sl & _ & He). injection He as <-. reflexivity.
+Qed.
+
+(* ---------------------------------------------------------------- NewX, InitDefault *)
+
+Lemma new_struct_shape q n p f s fs :
+  new_struct q n p f s = Ok (VStruct fs) -> map fst fs = map fd_id (sl_fields s).
+Proof.
+  unfold new_struct. intros H. apply bind_ok in H as (fs' & Hm & H). injection H as <-.
+  apply mapM_ok in Hm. induction Hm as [|fd e fds fs' He _ IH]; [reflexivity|]. cbn [map]. f_equal; [|exact IH].
+  apply bind_ok in He as (v & _ & He). injection He as <-. reflexivity.
+Qed.
+
+Lemma find_slot_In (fs : list (Z * cval)) id v :
+  NoDup (map fst fs) -> In (id, v) fs ->
+  find (fun e => fst e =? id) fs = Some (id, v).
+Proof.
+  induction fs as [|[i w] fs IH]; intros Hnd Hin; [contradiction|]. cbn [find fst].
+  inversion Hnd as [|? ? Hni Hnd']; subst. destruct Hin as [Heq|Hin].
+  - injection Heq as -> ->. rewrite Z.eqb_refl. reflexivity.
+  - destruct (i =? id) eqn:E.
+    + apply Z.eqb_eq in E. subst i. exfalso. apply Hni. change id with (fst (id, v)). apply in_map. exact Hin.
+    + apply IH; assumption.
+Qed.
+
+(* a freshly constructed struct: a field with a declared default holds the value of that
+   default, every other field is zero / nil *)
+Lemma new_struct_defaults q n p f s x fd :
+  new_struct q n p f s = Ok x -> NoDup (map fd_id (sl_fields s)) -> In fd (sl_fields s) ->
+  (forall c, fd_default fd = Some c ->
+     exists v, eval_top q n p f (fd_type fd) c = Ok v /\ get_slot x (fd_id fd) = Some v) /\
+  (fd_default fd = None -> get_slot x (fd_id fd) = Some (zero_slot fd)).
+Proof.
+  intros Hn Hnd Hin. assert (Hn' := Hn). unfold new_struct in Hn. apply bind_ok in Hn as (fs & Hm & Hn). injection Hn as <-.
+  assert (Hsh := new_struct_shape _ _ _ _ _ _ Hn'). rewrite <- Hsh in Hnd.
+  destruct (mapM_In _ _ _ fd Hm Hin) as (e & He & Hie).
+  apply bind_ok in He as (v & Hv & He). injection He as <-.
+  unfold init_slot, default_value in Hv. cbn [get_slot]. split.
+  - intros c Hc. rewrite Hc in Hv. apply bind_ok in Hv as (d & Hd & Hv). apply bind_ok in Hd as (w & Hw & Hd).
+    injection Hd as <-. injection Hv as <-. exists w. split; [exact Hw|].
+    rewrite (find_slot_In fs (fd_id fd) w Hnd Hie). reflexivity.
+  - intros Hc. rewrite Hc in Hv. cbn in Hv. injection Hv as <-.
+    rewrite (find_slot_In fs (fd_id fd) (zero_slot fd) Hnd Hie). reflexivity.
+Qed.
+
+(* InitDefault() on the zero object gives exactly what NewX() gives *)
+Lemma init_fields_zero q n p f fds :
+  init_fields q n p f fds (map (fun fd => (fd_id fd, zero_slot fd)) fds) =
+  mapM (fun fd => v <- init_slot q n p f fd ;; Ok (fd_id fd, v)) fds.
+Proof.
+  induction fds as [|fd fds IH]; [reflexivity|]. cbn [map init_fields mapM]. rewrite IH. unfold init_slot.
+  destruct (default_value q n p f fd) as [[v|]|e]; cbn [bind]; try reflexivity;
+    destruct (mapM _ fds); reflexivity.
+Qed.
+
+Lemma init_default_on_zero q n p f s :
+  init_default q n p f s (zero_struct s) = new_struct q n p f s.
+Proof. unfold init_default, zero_struct, new_struct. rewrite init_fields_zero. reflexivity. Qed.
+
+(* InitDefault() on any object: defaults are (re)assigned, nothing else is touched *)
+Lemma init_default_slots q n p f fds slots fs :
+  init_fields q n p f fds slots = Ok fs ->
+  Forall2 (fun fd_slot e =>
+             match fd_default (fst fd_slot) with
+             | Some c => exists v, eval_top q n p f (fd_type (fst fd_slot)) c = Ok v /\ e = (fd_id (fst fd_slot), v)
+             | None => e = snd fd_slot
+             end) (combine fds slots) fs.
+Proof.
+  revert slots fs. induction fds as [|fd fds IH]; intros [|sl slots] fs H; cbn in H; try discriminate.
+  - injection H as <-. constructor.
+  - apply bind_ok in H as (d & Hd & H). apply bind_ok in H as (rest & Hr & H). injection H as <-.
+    cbn [combine]. constructor; [|apply IH; exact Hr]. cbn [fst snd]. unfold default_value in Hd.
+    destruct (fd_default fd) as [c|].
+    + apply bind_ok in Hd as (v & Hv & Hd). injection Hd as <-. exists v. auto.
+    + injection Hd as <-. reflexivity.
+Qed.
+
+(* ---------------------------------------------------------------- getters, IsSet *)
+
+Lemma getter_unset_is_default fd dv slot :
+  support_isset fd = true -> is_set fd dv slot = false -> getter fd dv slot = default_var fd dv.
+Proof. intros Hs Hi. unfold getter. rewrite Hs, Hi. reflexivity. Qed.
+
+Lemma getter_set_is_value fd dv slot :
+  support_isset fd = true -> is_set fd dv slot = true ->
+  getter fd dv slot = if need_redirect fd && is_base_or_enum (fd_cat fd) then unsome slot else slot.
+Proof. intros Hs Hi. unfold getter. rewrite Hs, Hi. reflexivity. Qed.
+
+Lemma getter_plain_field fd dv slot : support_isset fd = false -> getter fd dv slot = slot.
+Proof. intros Hs. unfold getter. rewrite Hs. reflexivity. Qed.
+
+(* a value Go compares equal to itself: everything except NaN *)
+Definition self_equal (v : cval) : bool :=
+  match v with VDbl b => negb (dbl_is_nan b) | VBool _ | VInt _ | VStr _ => true | _ => false end.
+
+Lemma feq_refl b : dbl_is_nan b = false -> feq b b = true.
+Proof. intros H. unfold feq. rewrite H. cbn. rewrite Z.eqb_refl. reflexivity. Qed.
+
+Lemma is_set_default_itself fd d :
+  is_base_or_enum (fd_cat fd) = true -> self_equal d = true -> is_set fd (Some d) d = false.
+Proof.
+  intros Hb Hs. unfold is_set. rewrite Hb. destruct (is_binary (fd_cat fd)).
+  - rewrite beqb_refl. reflexivity.
+  - destruct d; cbn in Hs; try discriminate; cbn [go_neq].
+    + rewrite Bool.eqb_reflx. reflexivity.
+    + rewrite Z.eqb_refl. reflexivity.
+    + apply negb_true_iff in Hs. rewrite feq_refl by assumption. reflexivity.
+    + rewrite beqb_refl. reflexivity.
+Qed.
+
+Lemma is_set_default_itself_binary fd d :
+  is_binary (fd_cat fd) = true -> is_set fd (Some d) d = false.
+Proof.
+  intros Hb. unfold is_set. replace (is_base_or_enum (fd_cat fd)) with true by (destruct (fd_cat fd); cbn in Hb; try discriminate; reflexivity).
+  rewrite Hb, beqb_refl. reflexivity.
+Qed.
+
+(* ---------------------------------------------------------------- typing *)
+
+Lemma forallb_impl {A} (f g : A -> bool) l :
+  (forall x, In x l -> f x = true -> g x = true) -> forallb f l = true -> forallb g l = true.
+Proof.
+  induction l as [|x l IH]; intros H Hf; [reflexivity|]. cbn in *. apply andb_true_iff in Hf as [H1 H2].
+  rewrite (H x (or_introl eq_refl) H1). cbn. apply IH; [intros; apply H; [right|]; assumption | assumption].
+Qed.
+
+Lemma forall2b_impl {A B} (f g : A -> B -> bool) la lb :
+  (forall a b, f a b = true -> g a b = true) -> forall2b f la lb = true -> forall2b g la lb = true.
+Proof.
+  intros H. revert lb. induction la as [|a la IH]; intros [|b lb] Hf; cbn in *; try discriminate; [reflexivity|].
+  apply andb_true_iff in Hf as [H1 H2]. rewrite (H _ _ H1). cbn. apply IH. assumption.
+Qed.
+
+Lemma slot_ok_mono (ht ht' : ty -> cval -> bool) fd sl :
+  (forall t v, ht t v = true -> ht' t v = true) -> slot_ok ht fd sl = true -> slot_ok ht' fd sl = true.
+Proof.
+  intros H. unfold slot_ok. destruct sl as [b|z|b|s|s|l|kvs|fs| |x]; try (intros Hs; apply andb_true_iff in Hs as [H1 H2];
+    rewrite H1; cbn [andb]; apply H; exact H2); try (intros Hs; exact Hs).
+  destruct x as [b|z|b|s|s|l|kvs|fs| |y]; try (intros Hs; apply andb_true_iff in Hs as [H1 H2];
+    rewrite H1; cbn [andb]; apply H; exact H2).
+  destruct y; try (intros Hs; apply andb_true_iff in Hs as [H1 H2]; rewrite H1; cbn [andb]; apply H; exact H2).
+  intros _. reflexivity.
+Qed.
+
+Lemma has_type_S k : forall p tf t v, has_type k p tf t v = true -> has_type (S k) p tf t v = true.
+Proof.
+  induction k as [|k IH]; intros p tf t v H; [discriminate|].
+  remember (S k) as k1 eqn:Ek. cbn [has_type]. rewrite Ek in H. cbn [has_type] in H.
+  destruct (ty_category t); try exact H.
+  - (* map *)
+    destruct v; try discriminate. destruct kvs as [|kv kvs]; [reflexivity|].
+    destruct (ty_key t) as [kt|]; [|discriminate]. destruct (ty_value t) as [vt|]; [|discriminate].
+    revert H. apply forallb_impl. intros x _ Hx. apply andb_true_iff in Hx as [H1 H2].
+    rewrite (IH _ _ _ _ H1), (IH _ _ _ _ H2). reflexivity.
+  - (* list *)
+    destruct v; try discriminate. destruct l as [|x l]; [reflexivity|].
+    destruct (ty_value t) as [et|]; [|discriminate].
+    revert H. apply forallb_impl. intros y _ Hy. apply IH. exact Hy.
+  - (* set *)
+    destruct v; try discriminate. destruct l as [|x l]; [reflexivity|].
+    destruct (ty_value t) as [et|]; [|discriminate].
+    revert H. apply forallb_impl. intros y _ Hy. apply IH. exact Hy.
+  - destruct v; try discriminate. destruct (get_struct_like p tf t) as [[g s]|]; [|discriminate].
+    revert H. apply forall2b_impl. intros fd e He. apply andb_true_iff in He as [H1 H2]. rewrite H1. cbn [andb].
+    revert H2. apply slot_ok_mono. intros t' v' Hv. apply IH. exact Hv.
+  - destruct v; try discriminate. destruct (get_struct_like p tf t) as [[g s]|]; [|discriminate].
+    revert H. apply forall2b_impl. intros fd e He. apply andb_true_iff in He as [H1 H2]. rewrite H1. cbn [andb].
+    revert H2. apply slot_ok_mono. intros t' v' Hv. apply IH. exact Hv.
+  - destruct v; try discriminate. destruct (get_struct_like p tf t) as [[g s]|]; [|discriminate].
+    revert H. apply forall2b_impl. intros fd e He. apply andb_true_iff in He as [H1 H2]. rewrite H1. cbn [andb].
+    revert H2. apply slot_ok_mono. intros t' v' Hv. apply IH. exact Hv.
+Qed.
+
+Lemma has_type_le k m p tf t v : (k <= m)%nat -> has_type k p tf t v = true -> has_type m p tf t v = true.
+Proof. induction 1 as [|m _ IH]; intros H; [exact H | apply has_type_S, IH, H]. Qed.
+
+(* a typed value is a proper Go value: never nil, never a pointer to a base value *)
+Definition proper (v : cval) : bool := match v with VNil | VSome _ => false | _ => true end.
+Lemma has_type_proper k p tf t v : has_type k p tf t v = true -> proper v = true.
+Proof.
+  destruct k as [|k]; [discriminate|]. cbn [has_type]. destruct (ty_category t), v; try discriminate; reflexivity.
+Qed.
+
+Lemma slot_ok_proper ht fd v :
+  proper v = true -> slot_ok ht fd v = negb (need_redirect fd && is_base_or_enum (fd_cat fd)) && ht (fd_type fd) v.
+Proof. destruct v; cbn; try discriminate; reflexivity. Qed.
+
+(* a common fuel for finitely many typed values *)
+Lemma Forall2_common_fuel {A} (P : A -> cval -> Prop) (ht : nat -> A -> cval -> bool) l vs :
+  (forall k a v, ht k a v = true -> ht (S k) a v = true) ->
+  Forall2 (fun a v => exists m, ht m a v = true) l vs ->
+  exists m, Forall2 (fun a v => ht m a v = true) l vs.
+Proof.
+  intros Hmono H. induction H as [|a v l vs [m Hm] _ [m' IH]]; [exists O; constructor|].
+  assert (Hle : forall k j a v, (k <= j)%nat -> ht k a v = true -> ht j a v = true).
+  { intros k j a0 v0 Hkj. induction Hkj; [auto | intros; apply Hmono; auto]. }
+  exists (Nat.max m m'). constructor.
+  - apply (Hle m); [apply Nat.le_max_l | exact Hm].
+  - revert IH. apply Forall2_impl. intros a0 v0 H0. apply (Hle m'); [apply Nat.le_max_r | exact H0].
+Qed.
+
+Lemma zero_slot_ok ht fd :
+  (forall t, ht t (zero_plain (ty_category t)) = true \/ zero_plain (ty_category t) = VNil) ->
+  slot_ok ht fd (zero_slot fd) = true.
+Proof.
+  intros H. unfold zero_slot. destruct (need_redirect fd) eqn:Hn; [cbn; rewrite Hn; reflexivity|].
+  destruct (H (fd_type fd)) as [Hz|Hz].
+  - unfold fd_cat. destruct (zero_plain (ty_category (fd_type fd))) eqn:E; cbn; rewrite ?Hn; cbn; try exact Hz.
+    + (* VNil *) unfold fd_cat. destruct (ty_category (fd_type fd)); cbn in E; try discriminate; reflexivity.
+    + destruct (ty_category (fd_type fd)); cbn in E; discriminate.
+  - unfold fd_cat. rewrite Hz. cbn. rewrite Hn. cbn.
+    unfold fd_cat. destruct (ty_category (fd_type fd)); cbn in Hz; try discriminate; reflexivity.
+Qed.
+
+Lemma has_type_zero_plain k p tf t :
+  has_type (S k) p tf t (zero_plain (ty_category t)) = true \/ zero_plain (ty_category t) = VNil.
+Proof. cbn [has_type]. destruct (ty_category t); cbn; auto. Qed.
+
+Lemma collapse_empty_forallb (f : cval * cval -> bool) kvs :
+  forallb f kvs = true -> forallb f (collapse_empty kvs) = true.
+Proof.
+  induction kvs as [|kv r IH]; intros H; [reflexivity|]. cbn in H. apply andb_true_iff in H as [H1 H2].
+  cbn [collapse_empty]. destruct (is_empty_struct (fst kv) && existsb _ r); [auto|]. cbn. rewrite H1. auto.
+Qed.
+
+Lemma expect_typed k p tf t v w :
+  value_category (ty_category t) = true -> expect k p tf t v = Ok w -> exists m, has_type m p tf t w = true.
+Proof.
+  intros Hv. unfold expect.
+  destruct (ty_category t) eqn:E; cbn in Hv; try discriminate;
+    try (destruct (has_type k p tf t v) eqn:Hh; [intros [= <-]; exists k; exact Hh | discriminate]);
+    destruct v; try discriminate.
+  all: try (intros [= <-]; exists 1%nat; cbn [has_type]; rewrite E; reflexivity).
+  all: destruct (in_int_range _ z) eqn:Hr; try discriminate; intros [= <-]; exists 1%nat; cbn [has_type]; rewrite E; exact Hr.
+Qed.
+
+Lemma empty_container_typed p tf t :
+  is_container_category (ty_category t) = true -> has_type 1 p tf t (empty_container (ty_category t)) = true.
+Proof. cbn [has_type]. destruct (ty_category t); cbn; try discriminate; reflexivity. Qed.
+
+Lemma mention_slot_ok ht fd c v sl :
+  mention_slot fd c v = Ok sl -> proper v = true -> ht (fd_type fd) v = true -> slot_ok ht fd sl = true.
+Proof.
+  unfold mention_slot. intros H Hp Hv. destruct (need_redirect fd) eqn:Hn.
+  - destruct (is_base_category (fd_cat fd)) eqn:Hb.
+    + injection H as <-. cbn [slot_ok]. rewrite Hn.
+      replace (is_base_or_enum (fd_cat fd)) with true by (unfold is_base_or_enum; rewrite Hb; reflexivity).
+      destruct v; cbn in Hp; try discriminate; cbn; exact Hv.
+    + destruct (is_struct_like_category (fd_cat fd)) eqn:Hs; [|discriminate].
+      destruct c; try discriminate. injection H as <-. rewrite slot_ok_proper by assumption. rewrite Hv.
+      replace (is_base_or_enum (fd_cat fd)) with false; [rewrite andb_false_r; reflexivity|].
+      destruct (fd_cat fd); cbn in Hs; try discriminate; reflexivity.
+  - injection H as <-. rewrite slot_ok_proper by assumption. rewrite Hn, Hv. reflexivity.
+Qed.
+
+Lemma struct_slots_typed q k p vf g s l fs :
+  (forall t c v, eval q k p vf g t c = Ok v -> exists m, has_type m p g t v = true) ->
+  struct_slots q (eval q k p vf g) s l = Ok fs ->
+  exists m, forall2b (fun fd e => (fst e =? fd_id fd) && slot_ok (has_type m p g) fd (snd e)) (sl_fields s) fs = true.
+Proof.
+  intros IH H. unfold struct_slots in H. destruct (negb (keys_ok s l)); [discriminate|]. apply mapM_ok in H.
+  assert (Hex : Forall2 (fun fd e => exists m, (fun m fd e => (fst e =? fd_id fd) && slot_ok (has_type m p g) fd (snd e)) m fd e = true)
+                        (sl_fields s) fs).
+  { revert H. apply Forall2_impl. intros fd e He. destruct (filter (key_names fd) l) as [|kv [|? ?]]; try discriminate.
+    - injection He as <-. cbn [fst snd]. rewrite Z.eqb_refl. cbn [andb]. destruct (q_unmentioned_any q).
+      + exists O. reflexivity.
+      + exists 1%nat. apply zero_slot_ok. intros t. apply has_type_zero_plain.
+    - apply bind_ok in He as (v & Hv & He). apply bind_ok in He as (sl & Hsl & He). injection He as <-. cbn [fst snd].
+      rewrite Z.eqb_refl. cbn [andb]. destruct (IH _ _ _ Hv) as [m Hm]. exists m.
+      eapply mention_slot_ok; [exact Hsl | eapply has_type_proper; exact Hm | exact Hm]. }
+  clear H. induction Hex as [|fd e fds fs [m Hm] _ [m' IH']]; [exists O; reflexivity|].
+  exists (Nat.max m m'). cbn [forall2b].
+  assert (Hmono : forall a b fd e, (a <= b)%nat -> (fst e =? fd_id fd) && slot_ok (has_type a p g) fd (snd e) = true ->
+                                   (fst e =? fd_id fd) && slot_ok (has_type b p g) fd (snd e) = true).
+  { intros a b fd0 e0 Hab H0. apply andb_true_iff in H0 as [H1 H2]. rewrite H1. cbn [andb]. revert H2. apply slot_ok_mono.
+    intros t v. apply has_type_le. exact Hab. }
+  rewrite (Hmono m _ fd e (Nat.le_max_l _ _) Hm). cbn [andb].
+  revert IH'. apply forall2b_impl. intros fd0 e0. apply Hmono. apply Nat.le_max_r.
+Qed.
+
+(* every value the evaluator produces is a Go value of the declared type *)
+Lemma eval_typed q n : forall p vf tf t c v,
+  eval q n p vf tf t c = Ok v -> exists m, has_type m p tf t v = true.
+Proof.
+  induction n as [|k IH]; intros p vf tf t c v H; [discriminate|].
+  cbn [eval] in H. destruct (value_category (ty_category t)) eqn:Hvc; [|discriminate]. cbn [negb] in H.
+  destruct c as [b|z|s|s extra|l|l].
+  - (* double *)
+    destruct (ty_category t) eqn:E; try discriminate.
+    + injection H as <-. exists 1%nat. cbn [has_type]. rewrite E. reflexivity.
+    + unfold go_double in H. destruct (negb (dbl_finite (Z.of_N b))); [discriminate|].
+      exists 1%nat. cbn [has_type]. rewrite E. destruct (q_negzero_lost q && dbl_is_zero (Z.of_N b)); injection H as <-; reflexivity.
+    + destruct (q_fault_tolerant q); [|discriminate]. injection H as <-. exists 1%nat. cbn [has_type]. rewrite E. reflexivity.
+    + destruct (q_fault_tolerant q); [|discriminate]. injection H as <-. exists 1%nat. cbn [has_type]. rewrite E. reflexivity.
+    + destruct (q_fault_tolerant q); [|discriminate]. injection H as <-. exists 1%nat. cbn [has_type]. rewrite E. reflexivity.
+  - (* int *)
+    destruct (ty_category t) eqn:E; try discriminate;
+      try (injection H as <-; exists 1%nat; cbn [has_type]; rewrite E; reflexivity);
+      try (destruct (in_int_range _ z) eqn:Hr; [|discriminate]; injection H as <-; exists 1%nat; cbn [has_type]; rewrite E; exact Hr);
+      try (destruct (q_fault_tolerant q); [|discriminate]; injection H as <-; exists 1%nat; cbn [has_type]; rewrite E; reflexivity).
+  - (* literal *)
+    destruct (ty_category t) eqn:E; try discriminate;
+      try (apply bind_ok in H as (b & _ & H); injection H as <-; exists 1%nat; cbn [has_type]; rewrite E; reflexivity);
+      try (destruct (q_fault_tolerant q); [|discriminate]; injection H as <-; exists 1%nat; cbn [has_type]; rewrite E; reflexivity).
+  - (* identifier *)
+    destruct (bool_word (ty_category t) s) as [r|] eqn:Hb.
+    + subst r. unfold bool_word in Hb. destruct (is_true s || is_false s); [|discriminate].
+      exists 1%nat. cbn [has_type]. destruct (ty_category t); try discriminate; injection Hb as <-; try reflexivity;
+        destruct (is_true s); reflexivity.
+    + destruct extra as [ex|]; [|discriminate]. destruct (denotes p vf ex) as [d|e] eqn:Hd.
+      * apply bind_ok in H as (w & _ & H). eapply expect_typed; eassumption.
+      * destruct e; try discriminate. destruct (is_container_category (ty_category t)) eqn:Hc; [|discriminate].
+        destruct (q_fault_tolerant q); [|discriminate]. injection H as <-. exists 1%nat. apply empty_container_typed. exact Hc.
+  - (* list literal *)
+    assert (Hlist : (ty_category t = CatList \/ ty_category t = CatSet) ->
+              match l with [] => Ok (VList []) | _ => match ty_value t with Some et => vs <- mapM (eval q k p vf tf et) l ;; Ok (VList vs) | None => Error EInternal end end = Ok v ->
+              exists m, has_type m p tf t v = true).
+    { intros Hcat Hl. destruct l as [|c0 l0].
+      - injection Hl as <-. exists 1%nat. cbn [has_type]. destruct Hcat as [-> | ->]; reflexivity.
+      - destruct (ty_value t) as [et|] eqn:Hev; [|discriminate]. apply bind_ok in Hl as (vs & Hm & Hl). injection Hl as <-.
+        apply mapM_ok in Hm.
+        assert (Hex : Forall2 (fun (c : const_value) v => exists m, has_type m p tf et v = true) (c0 :: l0) vs).
+        { revert Hm. apply Forall2_impl. intros c1 v1 H1. eapply IH. exact H1. }
+        apply (Forall2_common_fuel (fun _ _ => True) (fun m (_ : const_value) v => has_type m p tf et v)) in Hex;
+          [|intros; apply has_type_S; assumption].
+        destruct Hex as [m Hm']. exists (S m). cbn [has_type].
+        assert (Hall : forallb (has_type m p tf et) vs = true).
+        { clear -Hm'. induction Hm'; [reflexivity|]. cbn. rewrite H. exact IHHm'. }
+        destruct vs as [|v0 vs]; [destruct Hcat as [-> | ->]; reflexivity|]. rewrite Hev.
+        destruct Hcat as [-> | ->]; exact Hall. }
+    destruct (ty_category t) eqn:E; try discriminate.
+    + destruct (q_fault_tolerant q); [|discriminate]. injection H as <-. exists 1%nat. cbn [has_type]. rewrite E. reflexivity.
+    + apply Hlist; auto.
+    + apply Hlist; auto.
+  - (* map literal: a map or a struct-like *)
+    destruct (ty_category t) eqn:E; try discriminate.
+    + (* map *)
+      destruct l as [|kv0 l0]; [injection H as <-; exists 1%nat; cbn [has_type]; rewrite E; reflexivity|].
+      destruct (ty_key t) as [kt|] eqn:Hk; [|discriminate]. destruct (ty_value t) as [vt|] eqn:Hv; [|discriminate].
+      apply bind_ok in H as (kvs & Hm & H). injection H as <-. apply mapM_ok in Hm.
+      assert (Hex : Forall2 (fun (_ : const_value * const_value) ab =>
+                     exists m, (fun m ab => has_type m p tf (bin2str kt) (fst ab) && has_type m p tf vt (snd ab)) m ab = true) (kv0 :: l0) kvs).
+      { revert Hm. apply Forall2_impl. intros kv ab Hab. apply bind_ok in Hab as (a & Ha & Hab). apply bind_ok in Hab as (b & Hb & Hab).
+        injection Hab as <-. cbn [fst snd]. destruct (IH _ _ _ _ _ _ Ha) as [m1 H1]. destruct (IH _ _ _ _ _ _ Hb) as [m2 H2].
+        exists (Nat.max m1 m2). rewrite (has_type_le m1 _ _ _ _ _ (Nat.le_max_l _ _) H1), (has_type_le m2 _ _ _ _ _ (Nat.le_max_r _ _) H2). reflexivity. }
+      set (ht := fun m (_ : const_value * const_value) (ab : cval) => true).
+      assert (Hc : exists m, forallb (fun ab => has_type m p tf (bin2str kt) (fst ab) && has_type m p tf vt (snd ab)) kvs = true).
+      { clear -Hex. induction Hex as [|x ab l kvs [m Hm] _ [m' IH]]; [exists O; reflexivity|].
+        exists (Nat.max m m'). cbn [forallb]. apply andb_true_iff in Hm as [H1 H2].
+        rewrite (has_type_le m _ _ _ _ _ (Nat.le_max_l _ _) H1), (has_type_le m _ _ _ _ _ (Nat.le_max_r _ _) H2). cbn [andb].
+        revert IH. apply forallb_impl. intros y _ Hy. apply andb_true_iff in Hy as [H3 H4].
+        rewrite (has_type_le m' _ _ _ _ _ (Nat.le_max_r _ _) H3), (has_type_le m' _ _ _ _ _ (Nat.le_max_r _ _) H4). reflexivity. }
+      destruct Hc as [m Hc]. exists (S m). cbn [has_type]. rewrite E.
+      apply collapse_empty_forallb in Hc. destruct (collapse_empty kvs) as [|x r]; [reflexivity|]. rewrite Hk, Hv. exact Hc.
+    + destruct (q_fault_tolerant q); [|discriminate]. injection H as <-. exists 1%nat. cbn [has_type]. rewrite E. reflexivity.
+    + destruct (q_fault_tolerant q); [|discriminate]. injection H as <-. exists 1%nat. cbn [has_type]. rewrite E. reflexivity.
+    + apply bind_ok in H as ([g sl] & Hg & H). cbn [fst snd] in H. apply bind_ok in H as (fs & Hs & H). injection H as <-.
+      destruct (struct_slots_typed q k p vf g sl l fs (fun t0 c0 v0 H0 => IH p vf g t0 c0 v0 H0) Hs) as [m Hm].
+      exists (S m). cbn [has_type]. rewrite E, Hg. exact Hm.
+    + apply bind_ok in H as ([g sl] & Hg & H). cbn [fst snd] in H. apply bind_ok in H as (fs & Hs & H). injection H as <-.
+      destruct (struct_slots_typed q k p vf g sl l fs (fun t0 c0 v0 H0 => IH p vf g t0 c0 v0 H0) Hs) as [m Hm].
+      exists (S m). cbn [has_type]. rewrite E, Hg. exact Hm.
+    + apply bind_ok in H as ([g sl] & Hg & H). cbn [fst snd] in H. apply bind_ok in H as (fs & Hs & H). injection H as <-.
+      destruct (struct_slots_typed q k p vf g sl l fs (fun t0 c0 v0 H0 => IH p vf g t0 c0 v0 H0) Hs) as [m Hm].
+      exists (S m). cbn [has_type]. rewrite E, Hg. exact Hm.
 Qed.
